@@ -44,6 +44,12 @@ def child_of(i, k):
 def h1(prog, rep):
     u = prog.unit(PH)
     nst = 0
+    for fn in ("swap", "heapify", "heapifyup"):
+        if not rep.names(u.func(fn), "setreccookie", "cookie"):
+            return
+    for fn in ("ptrheap_delete", "ptrheap_decrease", "ptrheap_increase"):
+        if not rep.names(u.func(fn), "rc"):
+            return
     for f in u.funcs:
         if f.file != PH:
             continue
@@ -170,6 +176,8 @@ def h4(prog, rep):
     up = u.func("heapifyup")
     dn = u.func("heapify")
     sw = u.func("swap")
+    if not (rep.names(up, "i") and rep.names(dn, "i", "N", "min") and rep.names(sw, "i", "j")):
+        return
     i = ("v", "i", [p["id"] for p in up.params if p["name"] == "i"][0])
     # heapifyup: every use of (i-1)/2 is dominated by i != 0
     n = 0
@@ -228,6 +236,8 @@ def h4(prog, rep):
 def h2_h3(prog, rep):
     u = prog.unit(TQ)
     ini = u.func("timerqueue_init")
+    if not (rep.names(u.func("timerqueue_delete"), "cookie") and rep.names(u.func("timerqueue_increase"), "cookie")):
+        return
     phi = list(ini.calls("ptrheap_init"))
     ok = len(phi) == 1 and norm(phi[0].arg(0)) == ("fn", "compar") and norm(phi[0].arg(1)) == ("fn", "setreccookie")
     rep.check(ok, "H2-handle", "the timer queue registers compar and setreccookie with its heap", ini.loc, "", function=ini.name, construct="register")
